@@ -3,8 +3,10 @@ package main
 // C13: wallet signing signs exactly the requested inputs.  Real function: wallet.SignTransaction on
 // real wallets (deterministic, bip44, collection, xpub; optionally encrypted).
 //
-//	sign wallet=<type>:<seedhex>:<n>:<enc> nent=<k> ux=<e<i>|f<j>,..> sigs=<n|v|g,..> idx=<i,..|-> inner=<ok|bad>
+//	sign wallet=<type>:<seedhex>:<n>:<enc>[:g<k>[c<kc>]] nent=<k> ux=<e<i>|f<j>,..> sigs=<n|v|g,..> idx=<i,..|-> inner=<ok|bad>
 //
+// 5th field of the wallet spec: the wallet is LOCKED, then k more (bip44: and kc change) addresses are generated while it
+// is locked, and SignTransaction runs inside wallet.GuardView (the unlock of the service / visor sign paths).
 // ux[i] = the address owning input i: entry i of w.GetEntries() (`e<i>`) or a foreign address (`f<j>`).
 // sigs[i] = the signature already present: n null, v a valid one by the owner (only for owned inputs),
 // g non-null garbage.  The sigs list may be shorter/longer than the inputs (malformed transaction).
@@ -101,17 +103,59 @@ func mkWallet(spec string) wallet.Wallet {
 		panic("harness: wallet type " + typ)
 	}
 	must(err)
+	if len(x) > 4 {
+		// `g<k>[c<kc>]`: k external (bip44: and kc change) addresses are generated AFTER the first n.  mkWallet gives
+		// the wallet as the service holds it: locked, extended WHILE LOCKED (bip44 derives from the account's public
+		// key; a deterministic wallet through wallet.GuardUpdate).  `reference` = the never-locked wallet.
+		k, kc := extSpec(x[4])
+		if !reference {
+			must(w.Lock([]byte("pw")))
+		}
+		gen := func(uw wallet.Wallet) error {
+			if k > 0 {
+				if _, err := uw.GenerateAddresses(wallet.OptionGenerateN(uint64(k))); err != nil {
+					return err
+				}
+			}
+			if kc > 0 && typ == "bip44" {
+				if _, err := uw.GenerateAddresses(wallet.OptionGenerateN(uint64(kc)), wallet.OptionChange()); err != nil {
+					return err
+				}
+			}
+			return nil
+		}
+		if typ == "bip44" || reference {
+			must(gen(w))
+		} else {
+			must(wallet.GuardUpdate(w, []byte("pw"), gen))
+		}
+		return w
+	}
 	if enc {
 		must(w.Lock([]byte("pw")))
 	}
 	return w
 }
 
+// reference: mkWallet builds the never-locked twin (see the 5th field of the wallet spec)
+var reference bool
+
+func extSpec(s string) (k, kc int) {
+	s = strings.TrimPrefix(s, "g")
+	if i := strings.Index(s, "c"); i >= 0 {
+		kc = int(PU64(s[i+1:]))
+		s = s[:i]
+	}
+	return int(PU64(s)), kc
+}
+
 // the secret keys of the wallet's entries, taken before locking
 func entryKeys(spec string) ([]cipher.Address, []cipher.SecKey) {
 	x := strings.Split(spec, ":")
 	x[3] = "0"
+	reference = true
 	w := mkWallet(strings.Join(x, ":"))
+	reference = false
 	es, err := w.GetEntries()
 	must(err)
 	var as []cipher.Address
@@ -187,7 +231,17 @@ func execSign(f []string) string {
 	must(err)
 	beforeSigs := append([]cipher.Sig{}, txn.Sigs...)
 
-	res, err := wallet.SignTransaction(w, txn, idx, uxOuts)
+	var res *coin.Transaction
+	if len(strings.Split(m["wallet"], ":")) > 4 {
+		// the locked-and-extended wallet signs the way the service / visor do: unlocked for the call only
+		err = wallet.GuardView(w, []byte("pw"), func(uw wallet.Wallet) error {
+			var e error
+			res, e = wallet.SignTransaction(uw, txn, idx, uxOuts)
+			return e
+		})
+	} else {
+		res, err = wallet.SignTransaction(w, txn, idx, uxOuts)
+	}
 
 	after, e2 := txn.Serialize()
 	must(e2)
@@ -380,6 +434,15 @@ func c13Gen(r *Rng, tier string, emit func(string)) {
 			enc = "1"
 		}
 		spec := fmt.Sprintf("%s:%s:%d:%s", typ, Hex(r.Bytes(16)), nEnt, enc)
+		lockedExt := (typ == "bip44" || typ == "deterministic") && r.Chance(25)
+		if lockedExt {
+			// addresses generated while the wallet was locked, signed for after an unlock
+			kc := 0
+			if typ == "bip44" && r.Chance(50) {
+				kc = 1 + r.Intn(3)
+			}
+			spec = fmt.Sprintf("%s:%s:%d:0:g%dc%d", typ, Hex(r.Bytes(16)), nEnt, 1+r.Intn(4), kc)
+		}
 		addrs, _ := entryKeys(spec)
 		k := 1 + r.Intn(6)
 		if r.Chance(3) {
@@ -390,6 +453,8 @@ func c13Gen(r *Rng, tier string, emit func(string)) {
 		pat := r.Intn(4)
 		for i := 0; i < k; i++ {
 			switch {
+			case lockedExt && r.Chance(60): // an address generated while the wallet was locked
+				ux = append(ux, fmt.Sprintf("e%d", nEnt+r.Intn(len(addrs)-nEnt)))
 			case pat == 0: // all owned
 				ux = append(ux, fmt.Sprintf("e%d", r.Intn(len(addrs))))
 			case pat == 1 && r.Chance(30): // some foreign
